@@ -108,7 +108,7 @@ def summarize(results, verbose=False, out=sys.stdout):
         if vac:
             flag += "  <-- vacuous: %s" % vac
         if verbose or flag:
-            print("  %s: %d/%d obligations, %d paths, %.2fs%s" % (name, p, n, r["paths"], r["wall"], flag), file=out)
+            print("  %s: %d/%d obligations, %d paths, gen %.2fs wall %.2fs%s" % (name, p, n, r["paths"], r["gen_time"], r["wall"], flag), file=out)
         for o in r["obligations"]:
             if o["status"] != "proved":
                 print("      %s  %s (%s, %.2fs)" % (o["status"].upper(), o["name"], o["backend"], o["time"]), file=out)
